@@ -39,6 +39,9 @@ def tie_skeleton(ctx, broken, specs_faults, name, need_det_ok=True, extra_valid=
             continue
         inputs = S.c_inputs(P)
         detok = f"(det_ok {inputs})" if (P["opts"]["det"] and need_det_ok and not P["crashed"]) else "true"
+        if P["opts"]["det"] and not P["crashed"] and not P["target_fault"]:
+            # the two historic-improvement oracles are the rounded difference between the history row the code reads and the incumbent
+            detok = f"({detok} && hist_ok {inputs})"
         if callable(extra_valid):
             ex = extra_valid(tr, P)
             if ex:
@@ -53,7 +56,7 @@ def tie_skeleton(ctx, broken, specs_faults, name, need_det_ok=True, extra_valid=
     ok = ctx.oblige(f"trace_shape:{name}", "correspondence", not shape_errors, str(shape_errors[:3]))
     if not ok:
         broken.append((f"trace_shape:{name}", f"{len(shape_errors)} traces do not have the modelled shape: {shape_errors[:2]}"))
-    okc, bad, log = core.run_cases(f"skel_{ctx.pid}_{name}", ["PV.Model.Val", "PV.Model.Skeleton", "PV.Model.SkeletonValid", "PV.Model.SkeletonNoisy"] + list(getattr(ctx, "extra_requires", [])),
+    okc, bad, log = core.run_cases(f"skel_{ctx.pid}_{name}", ["PV.Model.Val", "PV.Model.Skeleton", "PV.Model.SkeletonValid", "PV.Model.SkeletonNoisy", "PV.Model.SkeletonHist"] + list(getattr(ctx, "extra_requires", [])),
                                    "(val * bool) * xval", "fun c => snd (fst c) && xval_ok (fst (fst c)) (snd c)", cases, shard=3)
     good = ctx.oblige(f"correspondence:skeleton:{name}", "correspondence", okc and not bad,
                       f"{len(bad)} of {len(cases)} real runs differ from the model; " + log[-400:])
@@ -179,6 +182,13 @@ def mon_c13(tr):
     last_probe_k = initd[0][1]["k"]
     while i < len(ev):
         e = ev[i]
+        if e[0] in ("poll_begin", "search_begin"):
+            # when a search or poll step starts, the search mesh every consumer reads (optim_state) is the power of two the exponent
+            # says, is what the object holds, and does not exceed the poll mesh
+            sn = e[1]
+            for nm in ("smesh", "smesh_attr"):
+                if sn.get(nm) is not None and (sn[nm] != 2.0 ** sn["ks"] or sn[nm] > sn["mesh"]):
+                    return ("search-mesh", f"at {e[0]}: search mesh size {nm}={sn[nm]} but search_size_integer={sn['ks']} (2^ks = {2.0 ** sn['ks']}), poll mesh {sn['mesh']}")
         if e[0] == "poll_begin":
             polled_since_probe = True
             kb, SI, piter = e[1]["k"], e[1]["SI"], None
